@@ -4,7 +4,9 @@ fields("asn1tools/codecs/__init__.py", "BaseType", name=Str, type_name=Str, opti
 fields("Type", tag=Opt(ByteArray), tag_len=Opt(Int))
 invariant("Type", (self.tag is None) == (self.tag_len is None),
           implies(self.tag is not None, self.tag_len == len(self.tag) and self.tag_len >= 1))
+fixup("Type", "if self.tag is not None and len(self.tag) == 0: self.tag = bytearray([2])\nself.tag_len = None if self.tag is None else len(self.tag)")
 fields("PrimitiveOrConstructedType", constructed_tag=ByteArray, segment=Obj("Type"))
+fixup("PrimitiveOrConstructedType", "self.tag = self.tag if self.tag is not None else bytearray([4])\nself.tag_len = len(self.tag)\nself.constructed_tag = bytearray(self.tag)\nself.constructed_tag[0] |= 0x20\nself.tag[0] &= 0xdf")
 invariant("PrimitiveOrConstructedType", self.tag is not None, len(self.constructed_tag) == len(self.tag),
           self.constructed_tag != self.tag)
 fields("ArrayType", element_type=Obj("Type"))
